@@ -34,10 +34,19 @@ pub async fn run_conc<TC: HasRef>(b: &Value, tr: &mut Tracer) {
         ctx.publish(batch, tr).await;
     }
     let before_epoch = ctx.roots.len() as u64 - 1;
+    if b["flush_before"].as_bool().unwrap_or(false) {
+        // start the concurrent run with a cold cache so that reads go to the database
+        ctx.manager.flush_cache().await;
+    }
 
     // spawn the processes (gated)
     let mt = b["mt"].as_bool().unwrap_or(false);
-    ctx.db.ctl.lock().unwrap().gate_enabled = !mt;
+    {
+        let mut c = ctx.db.ctl.lock().unwrap();
+        c.gate_enabled = !mt;
+        // "post": the completion of every storage operation is a scheduling point of its own
+        c.gate_post = b["post"].as_bool().unwrap_or(false);
+    }
     let procs = b["procs"].as_array().unwrap().clone();
     let mut handles: HashMap<u32, tokio::task::JoinHandle<Value>> = HashMap::new();
     for p in procs.iter() {
